@@ -767,4 +767,69 @@ Section AllocInv.
     step_ok h s n1 j R -> owns s (pages (achild n1 j) ++ (prest n1 j ++ R)).
   Proof. intros h s n1 j R (Hlf & Hj & _ & _ & _ & O). apply descend_plug; assumption. Qed.
 
+  (* ---------------------------------------------------------------- zix_btree_remove_min / remove_max *)
+  Lemma aremove_min_frame : forall h s (n : anode) R,
+    wfn L I h (erase n) -> min_vals L I (erase n) < n_vals (erase n) -> owns s (pages n ++ R) ->
+    let '(m, n', s') := aremove_min dflt L I h s n in owns s' (pages n' ++ R).
+  Proof.
+    induction h as [|h IH]; intros s n R W Hc O; [exact (False_ind _ W)|].
+    destruct n as [id vs|id vs cs]; [exact O|].
+    cbn [erase] in W, Hc. apply (B7 wfn_inode_inv) in W as (h' & Eh & Hn & Hl & Bd & Hf). injection Eh as <-.
+    assert (HP : PK L I h vs (map erase cs)) by (split; assumption).
+    assert (H2 : 2 <= length vs) by (unfold min_vals, max_vals, n_vals in Hc; cbn [is_leaf vals] in Hc; lia).
+    assert (Use : forall j s1 (n1 : anode), step_ok h s1 n1 j R ->
+              let '(m, c', s2) := aremove_min dflt L I h s1 (achild n1 j) in owns s2 (pages (aplug n1 j c') ++ R)).
+    { intros j s1 n1 St. pose proof (IH s1 (achild n1 j) (prest n1 j ++ R)) as H.
+      pose proof (step_down _ _ _ _ _ St) as Od. pose proof St as (_ & _ & _ & Wc & Nc & _).
+      specialize (H Wc Nc Od). destruct (aremove_min dflt L I h s1 (achild n1 j)) as [[m c'] s2].
+      eapply step_use; eauto. }
+    cbn [aremove_min].
+    destruct (acan_remove_from L I (nth 0 cs adnode)) eqn:E0.
+    - pose proof (Use 0 s _ (step_direct h s id vs cs 0 R HP ltac:(lia) ltac:(lia) E0 O)) as H.
+      unfold achild in H. cbn [achildren] in H.
+      destruct (aremove_min dflt L I h s (nth 0 cs adnode)) as [[m c'] s1].
+      rewrite aplug_eq in H by (cbn [avals]; lia). exact H.
+    - destruct (acan_remove_from L I (nth 1 cs adnode)) eqn:E1.
+      + destruct (step_rotl h s id vs cs 0 R HP ltac:(lia) E1 E0 O) as [St Hv]. pose proof (Use 0 s _ St) as H.
+        destruct (aremove_min dflt L I h s (achild (arotate_left dflt (AInode id vs cs) 0) 0)) as [[m c'] s1].
+        rewrite aplug_eq in H by exact Hv. exact H.
+      + destruct (amerge dflt s (AInode id vs cs) 0) as [n1 s0] eqn:Em.
+        destruct (step_merge h s id vs cs 0 n1 s0 R HP ltac:(lia) E0 E1 Em O) as [St _].
+        pose proof (Use 0 s0 n1 St) as H.
+        destruct (aremove_min dflt L I h s0 (achild n1 0)) as [[m c'] s1]. exact H.
+  Qed.
+
+  Lemma aremove_max_frame : forall h s (n : anode) R,
+    wfn L I h (erase n) -> min_vals L I (erase n) < n_vals (erase n) -> owns s (pages n ++ R) ->
+    let '(m, n', s') := aremove_max dflt L I h s n in owns s' (pages n' ++ R).
+  Proof.
+    induction h as [|h IH]; intros s n R W Hc O; [exact (False_ind _ W)|].
+    destruct n as [id vs|id vs cs]; [exact O|].
+    cbn [erase] in W, Hc. apply (B7 wfn_inode_inv) in W as (h' & Eh & Hn & Hl & Bd & Hf). injection Eh as <-.
+    assert (HP : PK L I h vs (map erase cs)) by (split; assumption).
+    assert (H2 : 2 <= length vs) by (unfold min_vals, max_vals, n_vals in Hc; cbn [is_leaf vals] in Hc; lia).
+    assert (Use : forall j s1 (n1 : anode), step_ok h s1 n1 j R ->
+              let '(m, c', s2) := aremove_max dflt L I h s1 (achild n1 j) in owns s2 (pages (aplug n1 j c') ++ R)).
+    { intros j s1 n1 St. pose proof (IH s1 (achild n1 j) (prest n1 j ++ R)) as H.
+      pose proof (step_down _ _ _ _ _ St) as Od. pose proof St as (_ & _ & _ & Wc & Nc & _).
+      specialize (H Wc Nc Od). destruct (aremove_max dflt L I h s1 (achild n1 j)) as [[m c'] s2].
+      eapply step_use; eauto. }
+    cbn [aremove_max]. cbv zeta.
+    assert (Ez : length vs = S (length vs - 1)) by lia.
+    set (y := length vs - 1) in *. rewrite Ez.
+    destruct (acan_remove_from L I (nth (S y) cs adnode)) eqn:E0.
+    - pose proof (Use (S y) s _ (step_direct h s id vs cs (S y) R HP ltac:(lia) ltac:(lia) E0 O)) as H.
+      unfold achild in H. cbn [achildren] in H.
+      destruct (aremove_max dflt L I h s (nth (S y) cs adnode)) as [[m c'] s1].
+      rewrite aplug_eq in H by (cbn [avals]; lia). exact H.
+    - destruct (acan_remove_from L I (nth y cs adnode)) eqn:E1.
+      + destruct (step_rotr h s id vs cs y R HP ltac:(lia) E1 E0 O) as [St Hv]. pose proof (Use (S y) s _ St) as H.
+        destruct (aremove_max dflt L I h s (achild (arotate_right dflt (AInode id vs cs) (S y)) (S y))) as [[m c'] s1].
+        rewrite aplug_eq in H by exact Hv. exact H.
+      + destruct (amerge dflt s (AInode id vs cs) y) as [n1 s0] eqn:Em.
+        destruct (step_merge h s id vs cs y n1 s0 R HP ltac:(lia) E1 E0 Em O) as [St _].
+        pose proof (Use y s0 n1 St) as H.
+        destruct (aremove_max dflt L I h s0 (achild n1 y)) as [[m c'] s1]. exact H.
+  Qed.
+
 End AllocInv.
